@@ -103,7 +103,10 @@ CloseM ==
   /\ UNCHANGED <<hunt, loops, routers, raCount, panicked>> /\ out' = <<>>
   /\ closed' = TRUE
   /\ ev' = [kind |-> "close", stuck |-> {}]
-Awake(ls) == [i \in 1..Len(ls) |-> IF ls[i].pc = "sleep" THEN [ls[i] EXCEPT !.pc = "check", !.woken = FALSE] ELSE ls[i]]
+\* Since 96b01bc a loop reads the wake channel under the mutex at its check: every loop past its check (sending
+\* or sleeping) holds a channel that the next RA wake-up / Close closes
+Awake(ls) == [i \in 1..Len(ls) |-> IF ls[i].pc = "sleep" THEN [ls[i] EXCEPT !.pc = "check", !.woken = FALSE]
+                                    ELSE IF ls[i].pc = "send" THEN [ls[i] EXCEPT !.woken = TRUE] ELSE ls[i]]
 CloseAndWakeM ==
   /\ UNCHANGED <<hunt, routers, raCount, panicked>> /\ out' = <<>>
   /\ closed' = TRUE /\ loops' = Awake(loops)
@@ -117,8 +120,8 @@ LoopCheckM(l) ==
      /\ ev' = [kind |-> "check", l |-> l, hunting |-> inlist, closed |-> closed, router |-> Learned # {},
                 done |-> ~inlist \/ closed]
      /\ loops' = IF ~inlist \/ closed THEN [loops EXCEPT ![l].pc = "done"]
-                 ELSE IF Learned # {} THEN [loops EXCEPT ![l].pc = "send", ![l].list = Learned]
-                 ELSE [loops EXCEPT ![l].pc = "sleep", ![l].woken = closed]       \* no router: straight into the select
+                 ELSE IF Learned # {} THEN [loops EXCEPT ![l].pc = "send", ![l].list = Learned, ![l].woken = FALSE]
+                 ELSE [loops EXCEPT ![l].pc = "sleep", ![l].woken = FALSE]        \* no router: straight into the select
 
 \* one NA per captured router (Go map order), then into the select.  auto: the harness observes a loop
 \* that finds its channel already closed (after Close) back at its check together with the round.
@@ -127,8 +130,8 @@ LoopSendRoundM(l, order, auto) ==
   /\ order \in SetToSeqs(loops[l].list)
   /\ UNCHANGED <<hunt, routers, raCount, closed, panicked>>
   /\ out' = [i \in 1..Len(order) |-> NA(loops[l].mac, loops[l].dst, order[i])]
-  /\ loops' = IF auto /\ closed THEN [loops EXCEPT ![l].pc = "check", ![l].woken = FALSE, ![l].list = {}]
-              ELSE [loops EXCEPT ![l].pc = "sleep", ![l].woken = closed, ![l].list = {}]
+  /\ loops' = IF auto /\ (loops[l].woken \/ closed) THEN [loops EXCEPT ![l].pc = "check", ![l].woken = FALSE, ![l].list = {}]
+              ELSE [loops EXCEPT ![l].pc = "sleep", ![l].woken = loops[l].woken \/ closed, ![l].list = {}]
   /\ ev' = [kind |-> "act", l |-> l]
 
 \* the 2.0-2.8 s timer / the channel the loop sleeps on is closed
@@ -150,7 +153,7 @@ RecvRAM(src, mac, kind, wakeAll) ==
      ELSE LET woke == Len(hunt) > 0 /\ ~closed
               ls   == IF ~woke THEN loops
                       ELSE IF wakeAll THEN Awake(loops)
-                      ELSE [i \in 1..Len(loops) |-> IF loops[i].pc = "sleep" THEN [loops[i] EXCEPT !.woken = TRUE] ELSE loops[i]]
+                      ELSE [i \in 1..Len(loops) |-> IF loops[i].pc \in {"sleep", "send"} THEN [loops[i] EXCEPT !.woken = TRUE] ELSE loops[i]]
               proc == raCount = 0
               fail == proc /\ kind # "ok"
           IN /\ loops' = ls /\ UNCHANGED <<closed, panicked>>
